@@ -79,6 +79,12 @@ def execute(job):
             stats["segment_oracle_violations"] += len(sv)
             stats["fs_snapshots"] += sum(1 for ev, _, _ in res for e in ev if e.get("t") == "fs")
             stats["ro_opens_seen"] += sum(1 for ev, _, _ in res for e in ev if e.get("t") == "ro")
+        if opts.get("archive"):
+            from . import archive
+            av, ast = archive.check(plan2, res)
+            viol = viol + av
+            for key, val in ast.items():
+                stats[key] += val
         out["violations"] = viol
         out["stats"] = dict(stats)
         out["samples"] = w.samples
@@ -94,7 +100,9 @@ def execute(job):
             gates = Counter(e["name"] for e in ev if e.get("t") == "gate")
             summary["gates"] = dict(gates)
             summary["parked"] = sum(1 for e in ev if e.get("t") == "gate" and e.get("parked"))
-            summary["faults"] = dict(Counter(e["fault"] + ":" + e["op"] + ":" + path_class(e["path"]) for e in ios if e.get("fault")))
+            summary["faults"] = dict(Counter(
+                (f'errno{e["errno"]}' if e.get("errno") else f'short-write' if "short" in e else "fault") + ":" + e["op"] + ":" + path_class(e["path"])
+                for e in ios if e.get("fault")))
             crash = [e for e in ev if e.get("t") == "crash"]
             if crash:
                 c = crash[0]
